@@ -208,3 +208,17 @@ Proof.
   rewrite clock_origin_irrelevant_16.
   destruct (poll_run now (poll_new_scanner t) h) as [[[n2 s2] outs]|]; reflexivity.
 Qed.
+
+(** reset leaves no stored instant behind: after a reset -- at whatever instant it happens -- the
+    reports of any continuation do not depend on the clock's reading, only on the time steps *)
+Lemma shift_reset_fixed d s : shift_all d (poll_reset s) = poll_reset s.
+Proof.
+  unfold poll_reset, reset_multi, shift_all. rewrite map_map. apply map_ext. intros st. reflexivity.
+Qed.
+
+Corollary reset_scanner_any_start d s h now :
+  omap snd (poll_run (now + d) (poll_reset s) h) = omap snd (poll_run now (poll_reset s) h).
+Proof.
+  rewrite <- (shift_reset_fixed d s) at 1. rewrite clock_origin_irrelevant_16.
+  destruct (poll_run now (poll_reset s) h) as [[[n2 s2] outs]|]; reflexivity.
+Qed.
